@@ -51,15 +51,44 @@ def fr(r):
     return Fraction(int(r[0]), int(r[1]))
 
 
+EPS = np.float64(np.finfo(np.float64).eps ** 0.5)       # least_squares' default finite-difference step (2^-26)
+
+
+def fd_step(x):
+    """the relative step jacobian_fd takes at x (the symbolic unit h(x) of LsqLattice.tla)"""
+    return float(EPS * max(1.0, abs(x)))
+
+
 class Problem:
     def __init__(self, ev):
         h = ev["head"]
         cs = ev["coords"]
         self.ev = ev
+        self.api = h["api"]
         self.fam, self.n, self.mode, self.jacmode, self.maxit = h["fam"], h["n"], h["mode"], h["jac"], h["maxit"]
         self.t = float(fr(h["t"]))
         f = lambda k: np.array([float(fr(c[k])) for c in cs], dtype=np.float64)   # noqa: E731
-        self.lo, self.hi, self.x0, self.c, self.a, self.s = f("lo"), f("hi"), f("x0"), f("c"), f("a"), f("s")
+        self.lo, self.c, self.a, self.s = f("lo"), f("c"), f("a"), f("s")
+        hi, x0, self.cls = [], [], []
+        for i, c in enumerate(cs):
+            lo = float(self.lo[i])
+            w = fr(c["w"])
+            up = float(fr(c["hi"])) if w == 0 else lo + float(w) * fd_step(lo)
+            at, k = c["x0"][0], fr(c["x0"][1])
+            if at == "abs":
+                x = float(k)
+            elif at == "lo":
+                x = lo + float(k) * fd_step(lo)
+            elif at == "hi":
+                x = up - float(k) * fd_step(up)
+            else:
+                mid = 0.5 * lo + 0.5 * up
+                x = mid + float(k) * fd_step(mid)
+            hi.append(up)
+            x0.append(x)
+            # class of this coordinate for the vacuity guards: side, distance in steps, magnitude, narrow box
+            self.cls.append((at, float(k), abs(x) > 1.0, w != 0))
+        self.hi, self.x0 = np.array(hi, dtype=np.float64), np.array(x0, dtype=np.float64)
         self.opt = [fr(o) for o in ev["opt"]] if ev["hasopt"] else None
         if self.mode == "none":
             self.x_scale = None
@@ -107,7 +136,7 @@ class Problem:
 
 
 def solve(prob, sabotage=None):
-    """run least_squares, return (raw event list with doubles, returned x)"""
+    """run least_squares (or one direct jacobian_fd call), return (raw event list with doubles, returned x)"""
     mz = load_minimize()
     quad = mz.Quadratic()
     raw = []
@@ -118,6 +147,14 @@ def solve(prob, sabotage=None):
     def res(x):
         raw.append(("eval", np.array(x, dtype=np.float64, copy=True)))
         return prob.residual(x)
+
+    if prob.api == "jacobian_fd":
+        x = prob.x0.reshape(-1, 1).copy()
+        if np.any(x < prob.lo.reshape(-1, 1)) or np.any(x > prob.hi.reshape(-1, 1)):
+            raise Machinery("jacobian_fd problem with an infeasible point (rendering): %r" % (prob.key(),))
+        r = prob.residual(x)
+        mz.jacobian_fd(res, x, r, EPS, 0, [prob.lo.reshape(-1, 1).copy(), prob.hi.reshape(-1, 1).copy()])
+        return raw, prob.x0.copy()
 
     def cb(trace):
         raw.append(("iterc", np.array(trace[-1].candidate, dtype=np.float64).reshape(-1).copy()))
@@ -172,10 +209,29 @@ CLAUSE = {"eval": "eval-outside-bounds", "iterc": "trace-candidate-outside-bound
           "rety": "returned-objective-worse-than-clipped-start"}
 
 
+def excursion_class(prob, raw, pos):
+    """names the input class only (the verdict is TLC's): a rounding-size or a finite-difference-step-size excursion"""
+    e = raw[pos]
+    if e[0] not in ("eval", "iterc", "retx"):
+        return ""
+    pts = np.asarray(e[1]).reshape(prob.n, -1)
+    worst, wi = 0.0, 0
+    for i in range(prob.n):
+        for v in pts[i]:
+            ex = 0.0
+            if v < prob.lo[i]:
+                ex = (prob.lo[i] - v) / np.spacing(abs(prob.lo[i]))
+            elif v > prob.hi[i]:
+                ex = (v - prob.hi[i]) / np.spacing(abs(prob.hi[i]))
+            if ex > worst:
+                worst, wi = ex, i
+    return (":fd-step" if worst > 16 else "") + (":narrow-box" if prob.cls[wi][3] else "")
+
+
 def describe(prob, raw, pos):
     e = raw[pos]
-    head = "%s n=%d x_scale=%r jac=%s max_iter=%d lo=%s hi=%s x0=%s c=%s a=%s" % (
-        prob.fam, prob.n, prob.x_scale if prob.mode != "vector" else prob.x_scale.tolist(), prob.jacmode, prob.maxit,
+    head = "%s %s n=%d x_scale=%r jac=%s max_iter=%d lo=%r hi=%r x0=%r c=%s a=%s" % (
+        prob.api, prob.fam, prob.n, prob.x_scale if prob.mode != "vector" else prob.x_scale.tolist(), prob.jacmode, prob.maxit,
         prob.lo.tolist(), prob.hi.tolist(), prob.x0.tolist(), prob.c.tolist(), prob.a.tolist())
     if e[0] in ("eval", "iterc", "retx"):
         pts = np.asarray(e[1]).reshape(prob.n, -1)
@@ -291,8 +347,9 @@ def check_problems(ctx, probs, label, controls=False):
             if kind == "start":
                 raise Machinery("start event rejected: " + describe(p, raw, pos))
             bad = True
-            ctx.violation("%s:%s" % (CLAUSE[kind], "unscaled" if p.mode == "none" else "x_scale"), describe(p, raw, pos),
-                          {"problem": tlc.to_py(p.ev), "event": pos})
+            ctx.violation("%s:%s%s" % (CLAUSE[kind], "jacobian_fd" if p.api == "jacobian_fd" else
+                                       ("unscaled" if p.mode == "none" else "x_scale"), excursion_class(p, raw, pos)),
+                          describe(p, raw, pos), {"problem": tlc.to_py(p.ev), "event": pos})
         if p.opt is not None and p.maxit >= 40:
             if opt_err(x, p.opt) > TOL:
                 bad = True
@@ -331,8 +388,16 @@ def run(ctx):
     ctx.tlc_ok(res, "LsqLattice(exhaustive n=1)")
     exhaustive = res.finished
     probs = problems_of(states)
+    # the finite-difference dimension: start points 0, 1/2, 1, 2 relative steps from either bound, |x| <1, 1, >1, large,
+    # boxes 1.5 - 3 steps wide; least_squares and direct jacobian_fd calls
+    res, states = tlc.dump_states(lat, os.path.join(TLA, "LsqLattice_Near.cfg" if ctx.quick else "LsqLattice_NearDeep.cfg"),
+                                  timeout=1500)
+    ctx.tlc_ok(res, "LsqLattice(finite-difference dimension, n=1)")
+    exhaustive = exhaustive and res.finished
+    near = problems_of(states)
+    probs += near
     nex = len(probs)
-    res, sims = simparse.simulate(lat, os.path.join(TLA, "LsqLattice_Sim.cfg"), num=400 if ctx.quick else 12000,
+    res, sims = simparse.simulate(lat, os.path.join(TLA, "LsqLattice_Sim.cfg"), num=400 if ctx.quick else 8000,
                                   depth=16, seed=ctx.seed + 1, timeout=1500)
     ctx.tlc_ok(res, "LsqLattice_Sim")
     seen = set()
@@ -345,8 +410,26 @@ def run(ctx):
     if nex < 1000 or len(probs) - nex < 100:
         raise Machinery("too few problems: %d exhaustive, %d simulated" % (nex, len(probs) - nex))
     probs.sort(key=lambda p: repr(p.key()))
+    # vacuity: the near-bound classes with |x| > 1 were exercised through both entry points
+    guard = {}
+    for p in probs:
+        if p.jacmode != "fd":
+            continue
+        for (at, k, big, narrow) in p.cls:
+            if at in ("lo", "hi") and big and not narrow and 0 < k < 1:
+                guard[(p.api, at, "<1 step")] = guard.get((p.api, at, "<1 step"), 0) + 1
+            if at in ("lo", "hi") and big and not narrow and k == 1:
+                guard[(p.api, at, "1 step")] = guard.get((p.api, at, "1 step"), 0) + 1
+            if narrow:
+                guard[(p.api, "narrow-box", "")] = guard.get((p.api, "narrow-box", ""), 0) + 1
+    for api in ("least_squares", "jacobian_fd"):
+        for cls in (("lo", "<1 step"), ("hi", "<1 step"), ("lo", "1 step"), ("hi", "1 step"), ("narrow-box", "")):
+            if guard.get((api,) + cls, 0) < 4:
+                raise Machinery("vacuity: class %s %s with |x| > 1 exercised only %d times for %s" % (
+                    cls[0], cls[1], guard.get((api,) + cls, 0), api))
+    ctx.cov["fd_step_classes"] = {"%s %s %s" % k: v for k, v in sorted(guard.items())}
     # 2. negative control on the optimum comparison (synthetic: independent of the implementation)
-    lin = next(p for p in probs if p.fam == "lin" and p.maxit >= 40)
+    lin = next(p for p in probs if p.fam == "lin" and p.maxit >= 40 and p.opt is not None)
     exact = np.array([float(o) for o in lin.opt])
     ctx.control("a returned point 2e-6 away from the specification's optimum is flagged",
                 opt_err(exact + 2e-6, lin.opt) > TOL and opt_err(exact, lin.opt) <= TOL)
@@ -355,7 +438,7 @@ def run(ctx):
     for off in range(0, len(probs), chunk):
         check_problems(ctx, probs[off:off + chunk], "batch %d" % (off // chunk), controls=(off == 0))
     ctx.cov["exhaustive"] = bool(exhaustive)
-    ctx.cov["problems"] = {"exhaustive_n1": nex, "simulated_n=2..3": len(probs) - nex}
+    ctx.cov["problems"] = {"exhaustive_n1": nex, "of_which_fd_dimension": len(near), "simulated_n=2..3": len(probs) - nex}
     ctx.cov["rule"] = ("problems = every n=1 problem of the LsqLattice configuration (%d) + %d distinct simulated problems "
                        "with n = 2..3 over the full rational sets; each solve is recorded (residual calls, IterLogs, "
                        "returned point) and validated by TLC against LeastSquares.tla; an event whose clause fails is consumed by the "
